@@ -139,7 +139,9 @@ def run() -> int:
     ]
     rep.rule = "round trip: one query per N over all ADMGs on the universe; Evans: one query per (clause, n, labelling) over all admissible LV-DAGs; non-trivial = vacuity twin sat"
     states = 0
-    for job, st, r in pmap(work, [(N, timeout_ms) for N in Ns]):
+    # N = 5 (25-node universe with the latent names): z3 does not finish within half an hour and overshoots its own
+    # timeout, so that query gets a short one and is reported as inconclusive when it does not finish
+    for job, st, r in pmap(work, [(N, timeout_ms if N <= 4 else 200000) for N in Ns]):
         if st != "ok":
             rep.harness_errors.append(short(r, 800))
             continue
